@@ -310,7 +310,7 @@ func parkedInRouter() string {
 
 func TestVerif_C07(t *testing.T) {
 	rep := vk.NewReport(t, "C07", "exploration")
-	rep.Rule = "N=2-8 (one run in ten: 12-24) concurrent connections on one RouterHandler, each running a seeded script (REQ, re-REQ of the same id, CLOSE of open and never-opened ids followed by a COUNT barrier, EVENT, COUNT, disconnect by cancel or inbound close) while a reader stamps everything it receives on one logical clock; offline, every (subscription instance, publication) pair is classified must / must-not / may by real-time order and the deliveries are checked (exactly once for must, never for must-not, at most once always, own sub ids only, publication order per publisher); registry size after disconnects; back-pressure scenarios with stalled subscribers and small buffers (publishers must finish, draining subscribers lose nothing, the stalled one gets an in-order duplicate-free subsequence of at least min(buffer, M)); runs under GOMAXPROCS 16/4/1 with verifPoint delays; non-trivial = a run with at least one must and one must-not pair; distinct = distinct interleaving signatures (operation-type sequence in clock order)"
+	rep.Rule = "N=2-8 (one run in ten: 12-24) concurrent connections on one RouterHandler, each running a seeded script (REQ, re-REQ of the same id, CLOSE of open and never-opened ids followed by a COUNT barrier, EVENT, COUNT, disconnect by cancel or inbound close) while a reader stamps everything it receives on one logical clock; offline, every (subscription instance, publication) pair is classified must / must-not / may by real-time order and the deliveries are checked (exactly once for must, never for must-not, at most once always, own sub ids only, publication order per publisher); registry size after disconnects; back-pressure scenarios with stalled subscribers and small buffers (publishers must finish, draining subscribers lose nothing, the stalled one gets an in-order duplicate-free subsequence of at least min(buffer, M)); publishers cancelled while their own EVENT is fanned out to 90-420 old subscriptions (whenever the accepting OK still arrived, all of them must get the event); runs under GOMAXPROCS 16/4/1 with verifPoint delays; non-trivial = a run with at least one must and one must-not pair; distinct = distinct interleaving signatures (operation-type sequence in clock order)"
 	defer rep.Finish()
 	pc := &pointCtl{sleep: true, only: "router."}
 	mocrelay.SetVerifPoint(pc.fn)
@@ -758,6 +758,78 @@ func TestVerif_C07(t *testing.T) {
 		c07Judge(rep, w, conns, scenario, nil)
 		rep.Count("backpressure_runs", 1)
 		rep.Nontrivial(fmt.Sprintf("bp/%d/%d/%d/%d/%d", buf, nStalled, nDrain, nPub, m))
+	})
+	// a publisher that goes away while its own EVENT is being fanned out: when it still got its
+	// accepting OK, the event was published, and every subscription that was open (EOSE read
+	// long before) must get it - whether the publisher is still there does not matter to them
+	nLeave := vk.N(6, 60)
+	vk.ParallelW(4, nLeave, func(i int) {
+		r := vk.RNG("C07/publisher-leaves", i)
+		router := mocrelay.NewRouterHandler(4096)
+		nSubConn, perConn := 3+r.IntN(4), 30+r.IntN(40)
+		subs := make([]*vk.Session, nSubConn)
+		for c := range subs {
+			subs[c] = vk.StartSession(ctx, router, 8192)
+			defer subs[c].Stop()
+			for k := 0; k < perConn; k++ {
+				subs[c].Put(&mocrelay.ClientReqMsg{SubscriptionID: fmt.Sprintf("s%d", k), ReqFilters: []*mocrelay.ReqFilter{{Kinds: []int64{1}}}})
+				if _, ok := subs[c].Get(); !ok {
+					rep.Inconclusive("C07: publisher-leaves scenario could not be set up")
+					return
+				}
+			}
+		}
+		rounds, published := 10+r.IntN(10), 0
+		for round := 0; round < rounds; round++ {
+			evn := round
+			ev := c07Event(r, &evn)
+			ev.Kind = 1
+			vk.Seal(ev)
+			pub := vk.StartSession(ctx, router, 4)
+			if !pub.Put(&mocrelay.ClientEventMsg{Event: ev}) {
+				pub.Stop()
+				continue
+			}
+			if r.IntN(4) != 0 {
+				time.Sleep(time.Duration(r.IntN(300)) * time.Microsecond)
+			}
+			pub.Stop() // cancel, whatever the fan-out is doing
+			accepted := false
+			for {
+				m, ok := pub.GetWithin(time.Millisecond)
+				if !ok {
+					break
+				}
+				if okm, is := m.(*mocrelay.ServerOKMsg); is && okm.EventID == ev.ID && okm.Accepted {
+					accepted = true
+				}
+			}
+			if !accepted {
+				rep.Count("publisher_left_before_its_ok", 1)
+				continue
+			}
+			published++
+			rep.Eval(1)
+			for c, sc := range subs {
+				got := 0
+				for got < perConn {
+					m, ok := sc.GetWithin(vk.WaitBound / 4)
+					if !ok {
+						break
+					}
+					if em, is := m.(*mocrelay.ServerEventMsg); is && em.Event.ID == ev.ID {
+						got++
+					}
+				}
+				if got != perConn {
+					rep.Violation("delivery/missing/publisher-left-after-its-ok", fmt.Sprintf("the publisher received the accepting OK for event %.8s and was cancelled right away: connection %d holds %d matching subscriptions that had been open for a long time, %d of them received the event", ev.ID, c, perConn, got),
+						map[string]any{"subscriber_connections": nSubConn, "subscriptions_per_connection": perConn, "round": round})
+					return
+				}
+			}
+		}
+		rep.Count("events_whose_publisher_left_right_after_the_ok", int64(published))
+		rep.Nontrivial(fmt.Sprintf("publisher-leaves/%d/%d/%d", nSubConn, perConn, published))
 	})
 	pc.report(rep)
 	rep.Require(rep.Counter("pairs_must") >= 50 && rep.Counter("pairs_must-not") >= 50 && rep.Counter("pairs_may") >= 10, "too few classified pairs")
